@@ -301,6 +301,26 @@ fn record(args: &Args) {
         emit(&mut tr, "sur", format!("\"{p}").as_bytes());
     }
 
+    // ---- ill-formed / boundary UTF-8 inside strings (table 3-7 edges)
+    let u8_probes: [&[u8]; 40] = [
+        b"\xC2\x80", b"\xDF\xBF", b"\xE0\xA0\x80", b"\xED\x9F\xBF", b"\xEE\x80\x80", b"\xEF\xBF\xBF", b"\xF0\x90\x80\x80",
+        b"\xF4\x8F\xBF\xBF", b"\xF4\x90\x80\x80", b"\xF5\x80\x80\x80", b"\xF7\xBF\xBF\xBF", b"\xED\xA0\x80", b"\xED\xBF\xBF",
+        b"\xE0\x9F\xBF", b"\xE0\x80\x80", b"\xC0\x80", b"\xC1\xBF", b"\xF0\x8F\xBF\xBF", b"\xF0\x80\x80\x80", b"\xF8\x88\x80\x80\x80",
+        b"\xFF", b"\xFE", b"\x80", b"\xBF", b"\xC2", b"\xE2\x82", b"\xF0\x9F\x8E", b"\xC2\x41", b"\xE2\x82\x41", b"\xE2\x41\x82",
+        b"\xF0\x9F\x8E\x41", b"\xC2\xC2\x80", b"\xE1\x80\xC0", b"\xF1\x80\x80\xC0", b"\xF4\xBF\xBF\xBF", b"\xF3\xBF\xBF\xBF",
+        b"\xEF\xBB\xBF", b"\xED\x80\x80", b"\xF4\x80\x80\x80", b"\xE0\xBF\xBF",
+    ];
+    for p in u8_probes.iter() {
+        for (pre, post) in [(&b"\""[..], &b"\""[..]), (b"[\"a", b"b\"]"), (b"{\"", b"\":\n1}"), (b"\r\n\"", b"")] {
+            let mut v = pre.to_vec();
+            v.extend_from_slice(p);
+            v.extend_from_slice(post);
+            emit(&mut tr, "u8p", &v);
+        }
+        // outside a string it is never valid
+        emit(&mut tr, "u8p", p);
+    }
+
     // ---- nesting 126..131 (arrays / objects / alternating; closed, unclosed, with whitespace)
     for d in 126..=131usize {
         for kind in 0..3u32 {
